@@ -37,7 +37,9 @@ def result(m):
             'error': '' if m.error is None else type(m.error).__name__}
 
 
-def run_split(boundary, body, ks, kind='other'):
+def run_split(boundary, body, ks, kind='other', between=None):
+    """between = (other_boundary, other_body): after every read of this body another body (another request on the same
+    server) is parsed from start to end by a parser of its own; this body's result must not notice."""
     from ombott.request_pkg.multipart import MultipartMarkup
     m = MultipartMarkup(bytes(boundary))
     pos = 0
@@ -46,6 +48,11 @@ def run_split(boundary, body, ks, kind='other'):
         m.parse(body[pos:pos + k])
         pos += k
         log.append({'k': k, 'mm': proj(m)})
+        if between is not None:
+            other = MultipartMarkup(bytes(between[0]))
+            half = len(between[1]) // 2
+            other.parse(between[1][:half])
+            other.parse(between[1][half:])
     one = MultipartMarkup(bytes(boundary))
     if body:
         one.parse(body)
